@@ -275,6 +275,22 @@ func (w *World) effectsOfCall(info *types.Info, call *ast.CallExpr) *Effects {
 			eff.merge(t.eff)
 		}
 	})
+	// the counter of this very call is advanced by the caller after the call
+	for k := range eff.Locks {
+		if strings.HasPrefix(k, "G$calls.") {
+			direct := false
+			if fn := staticCallee(info, call); fn != nil {
+				if fi := w.ByObj[fn]; fi != nil && k == "G$calls."+fi.Short {
+					if n := w.cg.byFunc[fn]; n != nil && !n.eff.Locks[k] {
+						direct = true
+					}
+				}
+			}
+			if direct {
+				delete(eff.Locks, k)
+			}
+		}
+	}
 	// closures passed as arguments may be run by the callee
 	for _, a := range call.Args {
 		if lit, ok := stripParens(a).(*ast.FuncLit); ok {
@@ -284,6 +300,22 @@ func (w *World) effectsOfCall(info *types.Info, call *ast.CallExpr) *Effects {
 		}
 	}
 	return eff
+}
+
+func staticCallee(info *types.Info, call *ast.CallExpr) *types.Func {
+	switch f := stripParens(call.Fun).(type) {
+	case *ast.Ident:
+		fn, _ := info.Uses[f].(*types.Func)
+		return fn
+	case *ast.SelectorExpr:
+		if sel := info.Selections[f]; sel != nil {
+			fn, _ := sel.Obj().(*types.Func)
+			return fn
+		}
+		fn, _ := info.Uses[f.Sel].(*types.Func)
+		return fn
+	}
+	return nil
 }
 
 // bodyWrites: effects of a loop body on paths that can reach the back edge.
@@ -539,8 +571,9 @@ func (w *World) chanEffect(info *types.Info, ch ast.Expr, eff *Effects) {
 		if d.Kind == "lock" {
 			eff.Locks["L$"+name] = true
 		} else {
-			eff.Locks["E$"+name+"$send"] = true
-			eff.Locks["E$"+name+"$recv"] = true
+			for _, sfx := range []string{"send", "recv", "sendT", "sendF", "recvT", "recvF"} {
+				eff.Locks["E$"+name+"$"+sfx] = true
+			}
 		}
 	}
 	for _, d := range w.Specs.Decls {
@@ -683,6 +716,9 @@ func (w *World) callEffects(info *types.Info, call *ast.CallExpr, eff *Effects, 
 	}
 	if g != nil {
 		if n := g.byFunc[fn]; n != nil {
+			if n.fi != nil && w.countedCall(n.fi) {
+				eff.Locks["G$calls."+n.fi.Short] = true
+			}
 			callee(n)
 			return
 		}
